@@ -29,6 +29,7 @@ F64b  == TFloat("Float64", 5, 11)
 Str13 == TStr(1, 3, "")
 StrP  == TStr(Unset, Unset, "p1")
 StrU  == TStr(Unset, Unset, "")
+StrE  == TStr(Unset, Unset, "p0")        \* String(pattern=""): the documents do not say what an empty pattern means
 
 \* ------------------------------------------------------------- example expressions
 XLit(v) == [k |-> "lit", v |-> v]
@@ -54,7 +55,7 @@ ETypes == << I32b, F64b, Str13, StrP, TBool, TTs("f1"), TBytes(Unset, Unset),
              TMap(TList(Str13, Unset, Unset)), TNull(I32b), TNull(TRef("L")), TRef("L"), TRef("K"), TRef("A"),
              TList(TRef("L"), 1, Unset), TMap(TRef("K")), TNull(TList(TNull(I32b), Unset, Unset)),
              \* an alias of a list of structs; floats bounded on one side only
-             TRef("AL"), TFloat("Float64", Unset, 11), TFloat("Float64", 5, Unset) >>
+             TRef("AL"), TFloat("Float64", Unset, 11), TFloat("Float64", 5, Unset), StrE, TList(StrE, Unset, Unset) >>
 Int10 == XLit(VInt(10))
 StrOk == XLit(CStr(2, TRUE, 0))
 XExprs == { Int10, XLit(VInt(13)), XLit(VFloat(9)), XLit(VFloat(12)), StrOk, XLit(CStr(4, TRUE, 0)),
@@ -81,8 +82,9 @@ ExFits(sc, exs, t, x) ==
            [] u.k = "float" -> IF x.k = "lit" /\ x.v.k = "float" THEN (IF FLo(u) <= x.v.r /\ x.v.r <= FHi(u) THEN "acc" ELSE "rej")
                                ELSE IF x.k = "lit" /\ x.v.k \in {"int", "bool"} THEN "unspec" ELSE "rej"
            [] u.k = "str"   -> IF x.k = "lit" /\ x.v.k = "str"
-                               THEN (IF LenOk(u, x.v.len) /\ (u.pat = "" \/ x.v.ok) THEN "acc" ELSE "rej")
-                               ELSE IF x.k = "lit" /\ x.v.k = "ts" THEN "rej"     \* a 20-character text matching neither type
+                               THEN (IF u.pat = "p0" THEN "unspec"
+                                     ELSE IF LenOk(u, x.v.len) /\ (u.pat = "" \/ x.v.ok) THEN "acc" ELSE "rej")
+                               ELSE IF x.k = "lit" /\ x.v.k = "ts" THEN (IF u.pat = "p0" THEN "unspec" ELSE "rej")  \* a 20-character text
                                ELSE "rej"
            [] u.k = "bool"  -> IF x.k = "lit" /\ x.v.k = "bool" THEN "acc" ELSE "rej"
            [] u.k = "ts"    -> IF x.k = "lit" /\ x.v.k = "ts" THEN "acc" ELSE "rej"
@@ -116,7 +118,7 @@ ADecls == << [t |-> StrU, d |-> LAbsent], [t |-> StrU, d |-> LStr(2, TRUE)], [t 
              [t |-> TList(StrU, Unset, Unset), d |-> LAbsent], [t |-> TNull(TMap(StrU)), d |-> LAbsent],
              [t |-> TNull(TRef("L")), d |-> LAbsent], [t |-> TNull(TRef("AV")), d |-> LAbsent],
              [t |-> F64b, d |-> LFloat(9)], [t |-> TFloat("Float64", Unset, 11), d |-> LAbsent],
-             [t |-> [k |-> "routeunion"], d |-> LAbsent] >>                \* `union Route` instead of `struct Route`
+             [t |-> [k |-> "routeunion"], d |-> LAbsent], [t |-> StrE, d |-> LAbsent], [t |-> StrE, d |-> LStr(2, TRUE)] >>                \* `union Route` instead of `struct Route`
 AVals == { LAbsent, LNull, LInt(10), LInt(13), LFloat(9), LFloat(12), LStr(2, TRUE), LStr(4, TRUE), LStr(2, FALSE),
            LBool(TRUE), LTag("red"), LTag("size"), LTag("zz"), LTs(TRUE) }
 LitFits(sc, u, l) ==
@@ -124,8 +126,10 @@ LitFits(sc, u, l) ==
                           ELSE IF l.k = "lbool" THEN "unspec" ELSE "rej"
       [] u.k = "float" -> IF l.k = "lfloat" THEN (IF FLo(u) <= l.r /\ l.r <= FHi(u) THEN "acc" ELSE "rej")
                           ELSE IF l.k \in {"lint", "lbool"} THEN "unspec" ELSE "rej"
-      [] u.k = "str"   -> IF l.k = "lstr" THEN (IF LenOk(u, l.len) /\ (u.pat = "" \/ l.ok) THEN "acc" ELSE "rej")
-                          ELSE IF l.k = "lts" THEN (IF u.min = Unset /\ u.max = Unset /\ u.pat = "" THEN "acc" ELSE "rej")
+      [] u.k = "str"   -> IF l.k = "lstr" THEN (IF u.pat = "p0" THEN "unspec"
+                                                ELSE IF LenOk(u, l.len) /\ (u.pat = "" \/ l.ok) THEN "acc" ELSE "rej")
+                          ELSE IF l.k = "lts" THEN (IF u.pat = "p0" THEN "unspec"
+                                                    ELSE IF u.min = Unset /\ u.max = Unset /\ u.pat = "" THEN "acc" ELSE "rej")
                           ELSE "rej"
       [] u.k = "bool"  -> IF l.k = "lbool" THEN "acc" ELSE "rej"
       [] u.k = "ts"    -> IF l.k = "lts" THEN "acc" ELSE "rej"
@@ -300,7 +304,7 @@ Total == CASE pick.k = "exlit"  -> ExFits(XSchema(ETypes[pick.ti]), XExamples(pi
            [] pick.k = "badtype" -> TypeNameFits(pick.site, pick.n) \in Verdicts
            [] OTHER -> TRUE
 \* a default the schema itself declares is a value the rule accepts when a route writes it (the schema is consistent)
-DeclaredDefaultsFit == \A i \in DOMAIN ADecls : ADecls[i].d.k # "absent" => AttrFits(ASchema, ADecls[i], ADecls[i].d) = "acc"
+DeclaredDefaultsFit == \A i \in DOMAIN ADecls : ADecls[i].d.k # "absent" => AttrFits(ASchema, ADecls[i], ADecls[i].d) \in {"acc", "unspec"}
 \* null is an example of every nullable type and of no other
 NullIffNullable == pick.k = "exlit" /\ pick.x.k = "null" =>
     ((ExFits(XSchema(ETypes[pick.ti]), XExamples(pick.x), ETypes[pick.ti], pick.x) = "acc")
